@@ -426,6 +426,31 @@ PROPS = {
         "level_text": "Model-based sequences with an exhaustive single-event table; interleavings under the race detector are sampled, not enumerated.",
         "level_note": "Trusts the FIFO model in c19Prop, testing/synctest's blocked-goroutine detection and the Go race detector.",
     },
+    "C20": {
+        "pkg": "internal/corerad",
+        "files": ["corerad/zz_verif_C12_test.go", "corerad/zz_verif_sim_test.go", "corerad/zz_verif_C20_test.go"],
+        "run": "TestVerif_C20",
+        "level": "exploration",
+        "bubble": True,
+        "quick": {"shards": 8},
+        "thorough": {"shards": 16},
+        "rule": ("BuildTasks: every vector of up to 5 interfaces over {neither, advertise, monitor} x debug address on/off (exhaustive). Serve: 1..6 scripted "
+                 "tasks (the exported Task interface) with behaviours {runs until cancelled, fails at an instant, returns nil early, takes 1 ns..30 s to "
+                 "stop after cancellation (optionally failing while stopping), never ready, ready at an instant} x signal {none, SIGINT, SIGTERM, SIGHUP} "
+                 "at an instant from {1 ns, 1 s, 2 s, 2 s+1 ns, 5 s, 10 s} (so signals coincide with failures), in a synctest bubble with a real "
+                 "sdnotify.Notifier on a unixgram socket read after the bubble; exhaustive behaviour pairs x signal x 3 instants. Oracle: task list "
+                 "(one advertiser/monitor per such interface in order, none for neither, HTTP task iff address set, link watcher); event-log "
+                 "invariants: every task is run, Serve returns only after every Run returned, nil iff no task returned an error else an error naming "
+                 "one actually returned, every running task observes cancellation at the instant of the first failure or signal and returns after "
+                 "exactly its stop time, terminate() already equals (signal != SIGHUP) when a task observes a signal-caused cancellation, READY is "
+                 "announced once, after all 'started' statuses, never if some task never reported ready, and always when every task was ready before "
+                 "the end. Non-trivial: >= 2 tasks with a failure or a signal. Distinct: FNV-64 of the canonical JSON case."),
+        "assumptions": [STAGED, BUBBLE, "signals are injected on the channel Serve receives (os/signal delivery is not exercised)",
+                        "events at exactly the same virtual instant (signal and failure, readiness and cancellation) accept either order"],
+        "technique": "rapid property-based testing + exhaustive behaviour matrix on virtual time (testing/synctest); ordering invariants over the event log; exhaustive task-list enumeration",
+        "level_text": "Scripted task behaviours and signal instants with an event-log oracle; counterexample search, not proof.",
+        "level_note": "Trusts testing/synctest, the scripted Task implementation and the kernel's ordering of unixgram datagrams.",
+    },
 }
 
 NOT_APPLICABLE = {}
